@@ -687,12 +687,17 @@ def dropout(case, ctx):
             # where the train / inference flag is given: constructor, call
             # time only, or call time overriding the constructor (NNX)
             'flag_at': st.sampled_from(['ctor', 'call', 'override']),
+            # bit set of non-default options shared by both APIs
+            'opt': st.integers(0, 63),
             'seed': st.integers(0, 2**16)}),
         quick=300, thorough=12000, quick_shards=8, thorough_shards=16,
         x64=True, shrink=False,
         rule='the same random parameters are copied from the Linen layer into '
         'the NNX layer (Linear, LinearGeneral, Conv, ConvTranspose, LayerNorm,'
-        ' RMSNorm, GroupNorm, BatchNorm train/inference, Embed): outputs and '
+        ' RMSNorm, GroupNorm, BatchNorm train/inference, Embed incl. attend), '
+        'with non-default options given identically to both (grouping, '
+        'dilation, mask, padding spellings, epsilon, use_scale, '
+        'use_fast_variance, reduction_axes, group_size, momentum): outputs and '
         'state updates agree to 1e-9; non-trivial = layer has >=2 parameters')
 def linen_vs_nnx(case, ctx):
   rng = np.random.default_rng(case['seed'])
@@ -705,52 +710,98 @@ def linen_vs_nnx(case, ctx):
     require(tuple(var.value.shape) == tuple(np.shape(val)), lambda: 'NNX '
             f'parameter shape {var.value.shape} != Linen {np.shape(val)}')
     var.value = jnp.asarray(val)
+  opt = case.get('opt', 0)
+  o = {}            # options given identically to both layers
   if layer in ('linear', 'general'):
     x = rnd(rng, (2, 3, d))
     if layer == 'linear':
       lm = nn.Dense(f, use_bias=ub, **dt)
       nm = nnx.Linear(d, f, use_bias=ub, rngs=rn, **dt)
     else:
-      lm = nn.DenseGeneral((f, 2), axis=(-2, -1), use_bias=ub, **dt)
-      nm = nnx.LinearGeneral((3, d), (f, 2), axis=(-2, -1), use_bias=ub,
+      ax = (-2, -1) if opt & 1 else (1, 2)
+      lm = nn.DenseGeneral((f, 2), axis=ax, use_bias=ub, **dt)
+      nm = nnx.LinearGeneral((3, d), (f, 2), axis=ax, use_bias=ub,
                              rngs=rn, **dt)
   elif layer in ('conv', 'convT'):
-    x = rnd(rng, (2, 5, d))
+    g = 2 if (opt & 1 and layer == 'conv') else 1
+    cin, fo = d * g, f * g
+    x = rnd(rng, (2, 5, cin))
     pad = case['padding']
     if layer == 'conv':
-      lm = nn.Conv(f, (k,), strides=(s,) if pad != 'CIRCULAR' else (1,),
-                   padding=pad, use_bias=ub, **dt)
-      nm = nnx.Conv(d, f, (k,), strides=(s,) if pad != 'CIRCULAR' else (1,),
-                    padding=pad, use_bias=ub, rngs=rn, **dt)
+      if opt & 2 and pad in ('SAME', 'VALID'):
+        pad = [1, [(1, 2)], (2,)][opt % 3]      # int / pairs / per-dim int
+      o = dict(strides=(s,) if pad != 'CIRCULAR' else 1, padding=pad,
+               use_bias=ub, feature_group_count=g)
+      if opt & 4:
+        o['kernel_dilation'] = 2 if opt & 8 else (2,)
+      if opt & 16:
+        o['mask'] = jnp.asarray(rng.integers(0, 2, size=(k, cin // g, fo)
+                                             ).astype(np.float64))
+      lm = nn.Conv(fo, (k,), **o, **dt)
+      nm = nnx.Conv(cin, fo, (k,), rngs=rn, **o, **dt)
     else:
       pad = pad if pad in ('SAME', 'VALID') else 'SAME'
-      lm = nn.ConvTranspose(f, (k,), strides=(s,), padding=pad, use_bias=ub,
-                            **dt)
-      nm = nnx.ConvTranspose(d, f, (k,), strides=(s,), padding=pad,
-                             use_bias=ub, rngs=rn, **dt)
+      o = dict(strides=(s,), padding=pad, use_bias=ub)
+      if opt & 4:
+        o['kernel_dilation'] = (2,)
+      if opt & 8:
+        o['transpose_kernel'] = True
+      lm = nn.ConvTranspose(fo, (k,), **o, **dt)
+      nm = nnx.ConvTranspose(cin, fo, (k,), rngs=rn, **o, **dt)
   elif layer == 'layernorm':
-    x = rnd(rng, (3, d))
-    lm = nn.LayerNorm(use_bias=ub, **dt)
-    nm = nnx.LayerNorm(d, use_bias=ub, rngs=rn, **dt)
+    x = rnd(rng, (2, 3, d))
+    o = dict(use_bias=ub)
+    if opt & 1:
+      o['epsilon'] = 1e-2
+    if opt & 2:
+      o['use_scale'] = False
+    if opt & 4:
+      o['use_fast_variance'] = False
+    if opt & 8:
+      o['reduction_axes'] = (-2, -1) if opt & 16 else (1, 2)
+    lm = nn.LayerNorm(**o, **dt)
+    nm = nnx.LayerNorm(d, rngs=rn, **o, **dt)
   elif layer == 'rmsnorm':
-    x = rnd(rng, (3, d))
-    lm = nn.RMSNorm(**dt)
-    nm = nnx.RMSNorm(d, rngs=rn, **dt)
+    x = rnd(rng, (2, 3, d))
+    if opt & 1:
+      o['epsilon'] = 1e-2
+    if opt & 2:
+      o['use_scale'] = False
+    if opt & 8:
+      o['reduction_axes'] = (-2, -1)
+    lm = nn.RMSNorm(**o, **dt)
+    nm = nnx.RMSNorm(d, rngs=rn, **o, **dt)
   elif layer == 'groupnorm':
     x = rnd(rng, (2, 3, 2 * d))
-    lm = nn.GroupNorm(num_groups=2, use_bias=ub, **dt)
-    nm = nnx.GroupNorm(2 * d, num_groups=2, use_bias=ub, rngs=rn, **dt)
+    o = dict(use_bias=ub)
+    if opt & 1:
+      o.update(num_groups=None, group_size=d)     # the same two groups
+    else:
+      o['num_groups'] = 2
+    if opt & 2:
+      o['epsilon'] = 1e-2
+    if opt & 4:
+      o['use_scale'] = False
+    lm = nn.GroupNorm(**o, **dt)
+    nm = nnx.GroupNorm(2 * d, rngs=rn, **o, **dt)
   elif layer == 'batchnorm':
     x = rnd(rng, (4, d))
     ura = not case['train']
     fa = case.get('flag_at', 'ctor')
     # linen accepts the flag in exactly one place; for NNX the call-time
     # value takes precedence over the attribute (documented)
+    o = dict(momentum=0.8 if opt & 1 else 0.3, use_bias=ub)
+    if opt & 2:
+      o['epsilon'] = 1e-2
+    if opt & 4:
+      o['use_scale'] = False
+    if opt & 8:
+      o['use_fast_variance'] = False
     lm = nn.BatchNorm(use_running_average=ura if fa == 'ctor' else None,
-                      momentum=0.8, use_bias=ub, **dt)
+                      **o, **dt)
     nm = nnx.BatchNorm(d, use_running_average={'ctor': ura, 'call': False,
                                                'override': not ura}[fa],
-                       momentum=0.8, use_bias=ub, rngs=rn, **dt)
+                       rngs=rn, **o, **dt)
     call_kw = {} if fa == 'ctor' else {'use_running_average': ura}
   else:
     x = rng.integers(0, d, size=(2, 3))
@@ -786,5 +837,15 @@ def linen_vs_nnx(case, ctx):
     require(close(upd['batch_stats']['mean'], nm.mean.value) and close(
         upd['batch_stats']['var'], nm.var.value),
             'BatchNorm: NNX running statistics differ from Linen')
-  ctx.note(labels=[layer], nontrivial=len(jax.tree_util.tree_leaves(
-      v.get('params', {}))) >= 2)
+  if layer == 'embed' or layer not in ('linear', 'general', 'conv', 'convT',
+                                       'layernorm', 'rmsnorm', 'groupnorm',
+                                       'batchnorm'):
+    q = jnp.asarray(rnd(rng, (3, f)))
+    with sut('attend'):
+      al = lm.apply(v, q, method='attend')
+      an = nm.attend(q)
+    require(close(al, an), 'Embed.attend: NNX differs from Linen')
+  ctx.note(labels=[layer] + sorted(k_ for k_ in o if k_ not in (
+      'use_bias', 'strides', 'padding', 'feature_group_count')),
+           nontrivial=len(jax.tree_util.tree_leaves(
+               v.get('params', {}))) >= 2)
